@@ -89,10 +89,6 @@ def run(ctx):
             dist["streams"] += bool(st["record_streams"])
             dist["nocmd"] += bool(st["no_command"])
             dist["custom_recording"] += not chain["simple"]
-            if r.get("mat_before") != r.get("prod_after"):
-                dist["changed"] += 1
-            req = step_request(st, r)
-            sreqs.append(("run_link", req) if req else None)
             smeta.append((chain, st, r))
         # honest chain must verify under the derived layouts
         if all(r["file_exists"] and not r["exc"] for r in recs):
@@ -106,6 +102,13 @@ def run(ctx):
                 vouts.append(out)
                 vmeta.append((chain, family))
                 dist["inspection"] += bool(chain.get("final_inspection"))
+    # expectations for the four recordings come from the proved recorder model (C10), not from the implementation
+    dist["snapshots"] = ch.resolve_records(model, [r for (_, _, r) in smeta])
+    for (chain, st, r) in smeta:
+        if r.get("mat_before") != r.get("prod_after"):
+            dist["changed"] += 1
+        req = step_request(st, r)
+        sreqs.append(("run_link", req) if req else None)
     # model side, in one batch
     live = [x for x in sreqs if x]
     ans = model.batch(live) if live else []
@@ -145,8 +148,10 @@ def run(ctx):
         "checker_cmd": "coqc Props/C11.v; real in_toto_run / in_toto_record_start+stop on scratch trees with scripted commands vs "
                        "extracted Run.run_link; honest chains through real in_toto_verify and Verify.verify",
         "trusted_base": core.KERNEL_TB + [
-            "recording (record_artifacts_as_dict) enters the run model as an oracle: four independent snapshots "
-            "(materials/products x before/after) taken by the harness around the real call; C10 covers the recorder",
+            "recording enters the run model as an oracle: four snapshots (materials/products x before/after) of the real "
+            "directory taken by the harness around the real call and evaluated by the PROVED recorder model of C10 "
+            "(Model/Resolve.v, extracted), so a recorder defect in /repo shows up here as well; trees outside that model "
+            "(link cycles) fall back to the implementation's own recording",
             "the command is a deterministic script; its exit status/output are known to the harness",
             "extraction + driver; %d cases re-evaluated by vm_compute" % kn],
         "evaluations": evals, "distinct_nontrivial": nontrivial,
@@ -165,6 +170,7 @@ def replay(ctx, obj):
     chain = r["chain"]
     recs, project, linkdir = ch.record_chain(ctx, chain)
     model = core.Model()
+    ch.resolve_records(model, recs)
     rc = 0
     for st, rec in zip(chain["steps"], recs):
         req = step_request(st, rec)
